@@ -600,6 +600,7 @@ class Engine(DynMixin, ExprMixin, ModelMixin, BuiltinMixin, MAMixin):
         lc = self.loop_contracts.get(key)
         if lc is None:
             raise Unsupported("loop %s#%s over a sequence of symbolic length needs an invariant" % (fi.key, ordn))
+        lc._alias = self.loop_alias(fi, "for", ordn, node)
 
         def body(s, elem, j):
             for s1, r in self.assign(node.target, elem, s):
@@ -611,6 +612,74 @@ class Engine(DynMixin, ExprMixin, ModelMixin, BuiltinMixin, MAMixin):
 
         for r in self.iterate(st, seq, body, lc, "%s/loop%d" % (fi.key, ordn)):
             yield r
+
+    # ------------------------------------------------------------ loop-local names by role
+    @staticmethod
+    def loop_names(node):
+        """(names bound by the loop header, names the body assigns) in source order — the *roles* a loop invariant talks about"""
+        def flat(t):
+            if isinstance(t, ast.Name):
+                return [t.id]
+            if isinstance(t, (ast.Tuple, ast.List)):
+                return [n for e in t.elts for n in flat(e)]
+            return []
+
+        if isinstance(node, ast.For):
+            targets = flat(node.target)
+            body = node.body
+        elif isinstance(node, (ast.ListComp, ast.GeneratorExp, ast.DictComp, ast.SetComp)):
+            targets = [n for g in node.generators for n in flat(g.target)]
+            body = []
+        else:
+            targets, body = [], getattr(node, "body", [])
+        assigned = []
+
+        def walk(n):  # comprehensions have a scope of their own
+            yield n
+            for c in ast.iter_child_nodes(n):
+                if isinstance(c, (ast.ListComp, ast.GeneratorExp, ast.DictComp, ast.SetComp, ast.Lambda, ast.FunctionDef)):
+                    continue
+                for x in walk(c):
+                    yield x
+
+        for stmt in body:
+            for n in walk(stmt):
+                name = None
+                if isinstance(n, ast.Name) and isinstance(n.ctx, ast.Store):
+                    name = n.id
+                elif isinstance(n, ast.AugAssign) and isinstance(n.target, ast.Name):
+                    name = n.target.id
+                elif isinstance(n, (ast.Subscript, ast.Attribute)) and isinstance(n.ctx, ast.Store) and isinstance(n.value, ast.Name):
+                    name = n.value.id
+                elif isinstance(n, ast.Call) and isinstance(n.func, ast.Attribute) and isinstance(n.func.value, ast.Name) \
+                        and n.func.attr in ("append", "add", "extend", "update", "insert", "setdefault"):
+                    name = n.func.value.id
+                if name and name != "self" and name not in targets and name not in assigned:
+                    assigned.append(name)
+        return targets, assigned
+
+    def loop_alias(self, fi, kind, ordn, node):
+        """Loop invariants name locals as they were called when the contract was written (baseline/loop_names.json). If the
+        current loop binds / assigns the same number of names, the i-th recorded name stands for the i-th current one, so a
+        renamed local does not unbind the invariant."""
+        tab = getattr(self, "_loop_names_table", None)
+        if tab is None:
+            import json
+            import os
+
+            path = os.path.join(os.path.dirname(os.path.dirname(os.path.abspath(__file__))), "baseline", "loop_names.json")
+            tab = json.load(open(path)) if os.path.exists(path) else {}
+            self._loop_names_table = tab
+        rec = tab.get("%s|%s|%s" % (fi.key, kind, ordn))
+        if not rec:
+            return {}
+        targets, assigned = self.loop_names(node)
+        alias = {}
+        if len(rec["targets"]) == len(targets):
+            alias.update(dict(zip(rec["targets"], targets)))
+        if len(rec["assigned"]) == len(assigned):
+            alias.update(dict(zip(rec["assigned"], assigned)))
+        return {k: v for k, v in alias.items() if k != v}
 
     def iterate(self, st, seq, body, lc, label):
         """Generic invariant rule with the first iteration peeled (see DESIGN 2.4)."""
